@@ -75,6 +75,7 @@ type Replay struct {
 	Spec      *RunSpec   `json:"spec,omitempty"`
 	StoreW    *StoreSpec `json:"store,omitempty"`
 	Kill      *KillSpec  `json:"kill,omitempty"`
+	FailStop  bool       `json:"failStop,omitempty"`
 	Trace     []string   `json:"trace,omitempty"` // human-readable tail of the failing run
 }
 
@@ -477,6 +478,10 @@ func WorkerMain(t *testing.T) {
 		storeWorker(t, &job)
 		return
 	}
+	if job.Engine == "failstop" {
+		failStopWorker(t, &job)
+		return
+	}
 	eng := engines[job.Engine]
 	if eng == nil {
 		t.Fatalf("unknown engine %q", job.Engine)
@@ -650,6 +655,10 @@ func ReplayMain(t *testing.T) {
 	}
 	if rep.StoreW != nil || rep.Kill != nil {
 		storeReplay(t, &rep)
+		return
+	}
+	if rep.FailStop {
+		failStopReplay(t, &rep)
 		return
 	}
 	eng := engines[rep.Engine]
